@@ -286,20 +286,44 @@ def le(n, x, k):
     return ("byte", x, k)
 
 
+IC_APPLY = "wrath_header::inner_crypto::InnerCrypto::apply"
+
+
+def raw_apps(ctx, se, half, raw):
+    """call sites that are the half's raw operation on its own stream: half::raw(self, ..), or -
+    for the Wrath halves, whose raw operation is `self.<stream>.apply(data)` (C09 decides that)
+    - InnerCrypto::apply on the half's own stream field"""
+    fb = ctx.fb
+    self_root = ("deref", ("param", 1))
+    cf = [i for i, f in enumerate(fb.adt_fields(half) or []) if fb.ty(f["ty"]).peel_refs().path == "wrath_header::inner_crypto::InnerCrypto"]
+    out = []
+    for bb, i in se.term_info.items():
+        if i.get("k") != "call":
+            continue
+        la = i.get("locargs", (("?",),))[0]
+        if i["name"] == half + "::" + raw and la == ("ref", self_root, True):
+            out.append(i)
+        elif i["name"] == IC_APPLY and len(cf) == 1 and la == ("ref", ("field", self_root, cf[0]), True):
+            out.append(i)
+    return out
+
+
 def encoder_rule(ctx, rep, half, raw, name, b, size_ty, op_ty):
     fn = b.path
     se = ctx.pure.run(fn)
     r = strip(se.ret)
+    apps = raw_apps(ctx, se, half, raw)
+    app_terms = {strip(i["term"]) for i in apps}
     good = False
     desc = show(r, maxdepth=4)
     nop = {"u16": 2, "u32": 4}[op_ty]
     want = ("arr", tuple([be("u16", ("param", 2), 0), be("u16", ("param", 2), 1)] + [le(op_ty, ("param", 3), k) for k in range(nop)]))
-    if r[0] == "after" and util.is_call(r[1], half + "::" + raw) and r[2] == 1 and r[1][2][0] == ("mutref", 0):
+    if r[0] == "after" and strip(r[1]) in app_terms and r[2] == 1 and r[1][2][0] == ("mutref", 0):
         arr = arith.byte_canon(arith.norm(r[3]))
         good = arr == want
         desc = arith.show(arr) if arr[0] != "arr" else "[%s]" % ", ".join(arith.show(x) for x in arr[1])
     rep.check(good, "encoder", fn, "wire-layout", "raw(%s) over the whole array, returned" % desc, "header is not raw-encrypted [BE16(size), LE(opcode)] over the whole array: " + desc, se.body.loc())
-    n_raw = sum(1 for i in se.term_info.values() if i.get("k") == "call" and i["name"] == half + "::" + raw)
+    n_raw = len(apps)
     rep.check(n_raw == 1, "encoder", fn, "raw-once", "raw operation applied exactly once", "raw operation applied %d times" % n_raw, se.body.loc())
 
 
@@ -327,8 +351,9 @@ def decoder_rule(ctx, rep, owner, raw, name, b, kind, header_adt):
         fields = [f["name"] for f in ctx.fb.adt_fields(header_adt)]
         # find the decrypted data term: after<owner::raw(self, data)>(param 2)
         data = None
+        app_terms = {strip(i["term"]) for i in raw_apps(ctx, se, owner, raw)}
         for t in walk(r):
-            if t[0] == "after" and util.is_call(t[1]) and t[1][1].endswith("::" + raw) and t[2] == 1 and t[3] == ("param", 2):
+            if t[0] == "after" and util.is_call(t[1]) and (t[1][1].endswith("::" + raw) or strip(t[1]) in app_terms) and t[2] == 1 and t[3] == ("param", 2):
                 data = t
         if data is not None:
             env = {data: "D"}
@@ -337,7 +362,7 @@ def decoder_rule(ctx, rep, owner, raw, name, b, kind, header_adt):
             good = all(got.get(f) is not None and got[f] == want[f] for f in want) and util.is_call(data[1]) and data[1][2][0] == ("mutref", 0)
             desc = ", ".join("%s=%s" % (k, "[%s] (low byte first)" % ", ".join(arith.show(x) for x in v) if v is not None else arith.show(arith.norm(dict(zip(fields, r[4]))[k], env))) for k, v in got.items())
     rep.check(good, "decoder", fn, "wire-layout", desc, "header is not parsed as BE16 size / LE opcode from the raw-decrypted array: " + desc, se.body.loc())
-    n_raw = sum(1 for i in se.term_info.values() if i.get("k") == "call" and i["name"].endswith("::" + raw))
+    n_raw = sum(1 for i in se.term_info.values() if i.get("k") == "call" and (i["name"].endswith("::" + raw) or strip(i["term"]) in app_terms if r[0] == "agg" and r[2] == header_adt else i["name"].endswith("::" + raw)))
     rep.check(n_raw == 1, "decoder", fn, "raw-once", "raw operation applied exactly once to the whole array", "raw operation applied %d times" % n_raw, se.body.loc())
 
 
